@@ -108,6 +108,17 @@ def gen_cont(rng, depth, used, U):
     return E("cont", ck=ck, items=items, star=star, pos=pos)
 
 
+def handwrite(e, rng):
+    """give some managed leaves a hand-written (non-canonical) spelling"""
+    if e.kind == "m":
+        if rng.random() < 0.6:
+            e.text = f"{e.text} + 0" if e.text.lstrip("-").isdigit() else f"({e.text})"
+        return
+    if e.kind == "cont":
+        for c in e.items:
+            handwrite(c[1] if isinstance(c, tuple) else c, rng)
+
+
 def old_text(e):
     if e.kind != "cont":
         return e.text
@@ -319,6 +330,16 @@ def run_shard(args):
                 if unmanaged_inside(root):
                     break
             st = {"must": [], "inconsistent": False, "snap_changed": False, "dirty": 0}
+            if rng.random() < 0.12:
+                # evaluated at module level but never compared in this session (the snapshot of a deselected test):
+                # only `update` can touch it - managed leaves get hand-written text - and every unmanaged part stays
+                handwrite(root, rng)
+                txt = old_text(root)
+                st["must"] = [("never-compared", seg, "never-compared", "kept") for seg in segments(txt)]
+                sites.append({"id": i, "op": "eq", "old": txt, "obs": [], "place": "module"})
+                metas[i] = (root, st, txt)
+                C["never_compared_sites"] = C.get("never_compared_sites", 0) + 1
+                continue
             obs = observe(root, rng, used, st, [])
             txt = old_text(root)
             getitem = rng.random() < 0.25
